@@ -188,6 +188,18 @@ def run(ctx):
             ctx.violation(f"double-double lambda coordinate 1 - {-lo!r} (narrowed to 1.0 by the draw): a sample is returned although no finite quantile exists", small,
                           expected="gammaerr", observed=d.get("status"))
     S.run(ss)
+    # the same points with print_debug_info on: the draw (value or GammaError) does not depend on the debug flag, and debugging code never panics
+    dbg_reqs = [dict(s["req"], debug=not s["req"].get("debug", False)) for s in ss]
+    for s, d in zip(ss, run_harness(dbg_reqs)):
+        a = s["impl"]
+        ctx.count("debug_flag_flipped")
+        small = dict(S.small_req(s), print_debug_info=not s["req"].get("debug", False))
+        if d.get("status") == "panic" and a.get("status") != "panic":
+            ctx.violation(f"sample panics when print_debug_info is flipped ({s.get('kind')} point): {str(d.get('msg'))[:140]}", small, observed=d.get("msg")); continue
+        la = (a.get("meta") or {}).get("lambda"); ld = (d.get("meta") or {}).get("lambda")
+        if a.get("status") != d.get("status") or (a.get("meta") and d.get("meta") and la != ld):
+            ctx.violation("status or lambda of the sample depends on print_debug_info", small, expected={"status": a.get("status"), "lambda": la},
+                          observed={"status": d.get("status"), "lambda": ld})
     # the lambda a sample USES is the one it reports: model of the momentum formula on the implementation's own inputs (lambda from the metadata)
     SC.corr_momenta(ctx, [s for s in ss if s.get("kind") in ("lambda_tiny", "lambda_grid", "lambda_edge")])
     greqs = []
